@@ -156,7 +156,20 @@ def _text_once(shape, obj):
         env.update({f"APP_{sub.upper()}__{k.upper()}": _render(v) for k, v in obj[sub].items()})
     else:
         argv = [f"--{k}={_render(v)}" for k, v in flat.items()]
-        env = {"APP_" + k.replace(".", "__").upper(): _render(v) for k, v in flat.items()}
+        # one environment variable per *argument of the parser*: a typed argument that holds a mapping (Optional[dataclass],
+        # a subclass spec) has a single variable for the whole value, only groups have a variable per member
+        dests = {a.dest for a in p._actions}
+        env = {}
+
+        def envify(prefix, value):
+            if prefix in dests or not isinstance(value, dict):
+                env["APP_" + prefix.replace(".", "__").upper()] = _render(value)
+            else:
+                for k, v in value.items():
+                    envify(f"{prefix}.{k}", v)
+
+        for k, v in obj.items():
+            envify(k, v)
     results.append(("argv options", _try(lambda: sh.build().parse_args(argv))))
     results.append(("environment", _try(lambda: sh.build().parse_env(env))))
     return results
@@ -323,7 +336,7 @@ def main(rep, tier):
     rep.rule = ("E-SMT: one evaluation per query (non-trivial = unsat inclusion); E-CH object channels: one path per branch of the real code on the "
                 "shape's symbolic leaves; text channels: one path per solver-chosen concrete leaf vector; non-trivial = all channels compared")
     shapes = [s for s in C05_SHAPES if s in BY_NAME]
-    rep.bounds = dict(json_literals="unbounded length", shapes=shapes, text_window=[0, 1, 7], text_shapes="all" if tier == "thorough" else ["scalars", "lists", "groups", "subcommands", "dicts"])
+    rep.bounds = dict(json_literals="unbounded length", shapes=shapes, text_window=[0, 1, 7], text_shapes="all" if tier == "thorough" else ["scalars", "lists", "groups", "subcommands", "dicts", "dataclass_opt"])
     rep.assumptions = [
         "input domain of the E-SMT part: RFC 8259 number grammar and the literals true/false/null; JSON strings/escapes are outside (scanner level)",
         "jsonnet and toml parser modes are outside; json mode reads JSON by definition (reference reading in the replay)",
@@ -334,7 +347,7 @@ def main(rep, tier):
     smt_layer(rep, tier)
     ast_layer(rep, tier)
     jobs = [dict(module="c05", func="obj_channels", kwargs=dict(shape=s), timeout=200 if tier == "quick" else 900) for s in shapes]
-    tshapes = shapes if tier == "thorough" else ["scalars", "lists", "groups", "subcommands", "dicts"]
+    tshapes = shapes if tier == "thorough" else ["scalars", "lists", "groups", "subcommands", "dicts", "dataclass_opt"]
     tjobs = []
     for s_ in tshapes:
         n = {"scalars": 6, "lists": 3, "dicts": 2, "restricted": 3, "unions": 3}.get(s_, 1)
